@@ -166,6 +166,8 @@ func (sgi ShardGroupInfo) TargetShards(mst *MeasurementInfo, ski *ShardKeyInfo, 
 	shards := make([]ShardInfo, 0, len(sgi.Shards))
 	shardKeyAndValue = append(shardKeyAndValue, mst.Name...)
 	for tagGroupIdx := range tagsGroup {
+		// every OR-group selects its shard from its own key: drop what the previous group appended
+		shardKeyAndValue = shardKeyAndValue[:len(mst.Name)]
 		sort.Sort(tagsGroup[tagGroupIdx])
 		i, j := 0, 0
 		for i < len(ski.ShardKey) && j < len(*tagsGroup[tagGroupIdx]) {
